@@ -220,7 +220,7 @@ void PropertyHDF5::uncertainty(const nix::none_t t) {
 
 
 bool PropertyHDF5::isValidEntity() const {
-    return dataset().referenceCount() > 0 && !dataset().name().empty();
+    return dataset().isLinkedInFile();
 }
 
 
